@@ -91,7 +91,9 @@ class C19(Property):
             "ConcurrentCacher(instrumented MemoryCacher, recording list, scheduler lock) under a baton scheduler (random or "
             "preemption-bounded schedules); on a hang the wait-for edges of the real threads are compared with the model's wait-for graph; plus DiskCacher cases, alone and "
             "wrapped in ConcurrentCacher (streaming getter raising an Exception / KeyboardInterrupt / SystemExit / GeneratorExit after j lines, file truncated at byte n, zero-length "
-            "file), a few free-running runs on a real multiprocessing RawArray+Lock, OpenmlSource.read against an instrumented 3-permit "
+            "file), 20 % of the scheduled runs use the real DiskCacher as inner cacher (half-written files visible to the unlocked `in` of rmv); "
+            "a few free-running runs on a real multiprocessing RawArray+Lock, OpenmlSource.read (data-id and task-id sources, also downloaded through a "
+            "fake HttpSource, and 4-7 threads really waiting on a 1-3 permit semaphore) against an instrumented 3-permit "
             "openml_semaphore with the fake data set cached before / by a peer during acquire() / served on demand and full, abandoned and raising "
             "reads (permits and cacher locks must be back afterwards), a key->slot probe across interpreters with different PYTHONHASHSEED, and reader-depth probes (127-400 simultaneous read locks on one "
             "slot of the lock table built by CobaMultiprocessor, by nesting or by threads at a barrier). non-trivial = a scheduled run in which at least "
@@ -110,6 +112,10 @@ class C19(Property):
         "repaired code's CobaException is relabelled `refuse`; `ccreate` marks the start of the inner populate = DiskCacher's file creation)",
         "DiskCacher inside the scheduled runs is represented by MemoryCacher semantics plus the ccreate/cpop window; the real DiskCacher is "
         "exercised sequentially (alone and through ConcurrentCacher), not under the scheduler",
+        "the unlocked `key in self` of rmv is an oracle in the model (flag `o` of Instr.rmv): every theorem holds for every answer; with the real "
+        "DiskCacher as inner cacher of the scheduled runs the driver takes the observed answers and checks that a True on an uncached key only "
+        "occurs while the model has a writer between ccreate and cpop (partialWriter); file-system visibility order of create/close is CPython+OS",
+        "OpenmlSource network path: HttpSource and time in coba.environments.openml are replaced by fakes (as the unit tests do)",
         "fairness: the scheduler gives every caller a turn again and again (FairSched); OS thread/process scheduling is assumed fair in this sense",
     ]
     assumptions = [
@@ -122,7 +128,8 @@ class C19(Property):
         "deadlock_free_partial": "needs Hier: cross-caller nested write-waits deadlock on the real code (C19-F1 = a 2-cycle of the wait-for graph, "
                                  "f1_is_two_cycle, counterexample replayed); deadlock_free_repaired / fair_termination_repaired hold without any hypothesis for "
                                  "the code with fixes/C19-nested-write-wait-raises.diff (the harness probes which variant it runs and uses the matching model)",
-        "fair_termination": "same hypothesis Hier (unrepaired code)",
+        "fair_termination": "same hypothesis Hier (unrepaired code); deadlock_free_ranked / no_wait_cycle_ranked / fair_termination_ranked weaken it to an "
+                            "acyclic static lock order (any rank `ord` compatible with the slots; the harness finds it by topological sorting)",
         "zero_length_is_absent_concurrent_partial": "needs the file not to be zero-length: through ConcurrentCacher a zero-length file raises (C19-F3, "
                                                     "concurrent_zero_length_counterexample); test_overwrite_empty_cache pins the `in` semantics, no small repair",
     }
@@ -241,12 +248,16 @@ class C19(Property):
     def gen_openml_case(self, rng, tier):
         reads = []
         for _ in range(rng.choice([1, 2, 3, 4, 5])):
-            rd = {"order": rng.wchoice([(25, "before"), (50, "during"), (25, "uncached")]),
+            rd = {"order": rng.wchoice([(20, "before"), (40, "during"), (15, "uncached"), (25, "network")]),
                   "mode": rng.wchoice([(60, "full"), (40, "partial")])}
             b = rng.wchoice([(60, None), (20, "deactivated"), (20, "badfeat")])
             if b:
                 rd["bad"] = b
+            if rng.chance(0.35):
+                rd["task"] = True
             reads.append(rd)
+        if rng.chance(0.12):
+            return {"kind": "openml", "threads": True, "n": rng.randint(4, 7), "permits": rng.choice([1, 2, 3, 3]), "task": rng.chance(0.4)}
         return {"kind": "openml", "reads": reads, "concurrent": rng.chance(0.6), "semaphore": not rng.chance(0.1), "permits": 3}
 
     def gen_depth_case(self, rng, tier):
@@ -336,6 +347,14 @@ class C19(Property):
                     rd["bad"] = bad
                 cs.append({"kind": "openml", "reads": [rd], "concurrent": True, "semaphore": True, "permits": 3})
         cs.append({"kind": "openml", "reads": [{"order": "during", "mode": "full"}] * 4, "concurrent": False, "semaphore": True, "permits": 3})
+        for order in ("before", "during", "uncached", "network"):
+            cs.append({"kind": "openml", "reads": [{"order": order, "mode": "full", "task": True}, {"order": order, "mode": "partial", "task": True}],
+                       "concurrent": True, "semaphore": True, "permits": 3})
+        cs.append({"kind": "openml", "reads": [{"order": "network", "mode": "full"}, {"order": "network", "mode": "full", "bad": "deactivated"},
+                                              {"order": "network", "mode": "full", "bad": "badfeat"}, {"order": "network", "mode": "partial"}],
+                   "concurrent": True, "semaphore": True, "permits": 3})
+        cs.append({"kind": "openml", "threads": True, "n": 6, "permits": 3, "task": False})
+        cs.append({"kind": "openml", "threads": True, "n": 5, "permits": 1, "task": True})
         cs.append({"kind": "openml", "reads": [{"order": "during", "mode": "full"}, {"order": "uncached", "mode": "partial"}], "concurrent": True, "semaphore": False, "permits": 3})
         # more simultaneous readers of one slot than a signed byte can count, on the lock table the library allocates
         cs.append({"kind": "depth", "variant": "nest", "n": 200})
@@ -683,13 +702,33 @@ class C19(Property):
         return {"fails": fails, "nontrivial": True, "tags": tags, "impl": o, "model": {"expected": o["expected"]}}
 
     def eval_openml(self, case, driver):
+        if case.get("threads"):
+            o = R.run_openml_threads(case)
+            fails, tags = [], ["openml-semaphore", "openml:threads-waiting", "openml-permits:%d" % o["permits0"]]
+            where = "%d OpenmlSource readers on a %d-permit semaphore" % (case["n"], o["permits0"])
+            if o["alive"] or o["timeouts"]:
+                fails.append(F("B", "%s: %d readers still waiting after 40 s (%d acquire time-outs)" % (where, o["alive"], o["timeouts"]), "openml-reader-waits-forever"))
+            elif o["free_permits"] != o["permits0"] or o["acquires"] != o["releases"]:
+                fails.append(F("B", "%s: afterwards %d of %d permits are free (acquire %d, release %d)"
+                               % (where, o["free_permits"], o["permits0"], o["acquires"], o["releases"]), "openml-semaphore-permit-leaked"))
+            if o["array_nonzero"]:
+                fails.append(F("B", "%s: cacher locks remain %s" % (where, o["array_nonzero"]), "array-nonzero-after-exit"))
+            if any(r != 3 for r in o["results"]) and not fails:
+                fails.append(F("B", "%s: reads returned %s" % (where, o["results"]), "openml-read-failed"))
+            model = None
+            if driver is not None and not fails:
+                model = driver.ask({"op": "semrun", "permits": o["permits0"], "reads": [[True, False, False]] * case["n"]})
+                if model["permits"] != o["free_permits"] or o["max_holders"] > o["permits0"]:
+                    fails.append(F("A", "%s: free permits %s / max simultaneous holders %d; model %s" % (where, o["free_permits"], o["max_holders"], model), "A:openml-semaphore"))
+            return {"fails": fails, "nontrivial": o["max_holders"] >= min(o["permits0"], 2), "tags": tags, "impl": o, "model": model}
         fails, tags = [], ["openml-semaphore"]
         o = R.run_openml(case)
         has_sem = bool(case.get("semaphore", True))
         for n, (rd, res) in enumerate(zip(case["reads"], o["reads"])):
-            tags.append("openml:%s/%s/%s" % (rd["order"], rd.get("mode", "full"), rd.get("bad") or "good"))
+            tags.append("openml:%s/%s/%s%s" % (rd["order"], rd.get("mode", "full"), rd.get("bad") or "good", "/task" if rd.get("task") else ""))
             where = "OpenmlSource.read #%d (source %s, %s read%s)" % (
-                n, {"before": "cached beforehand", "during": "cached by a peer while this reader waited in acquire()", "uncached": "not cached"}[rd["order"]],
+                n, {"before": "cached beforehand", "during": "cached by a peer while this reader waited in acquire()", "uncached": "not cached",
+                    "network": "not cached, downloaded through _http_request"}[rd["order"]],
                 rd.get("mode", "full"), ", " + rd["bad"] if rd.get("bad") else "")
             if res["outcome"] == "would-wait":
                 fails.append(F("B", "%s: no permit of the openml semaphore is left (%d of %d), the reader waits forever" % (where, res["permits_after"], o["permits0"]),
@@ -706,13 +745,22 @@ class C19(Property):
         if driver is not None and not fails:
             model = []
             for rd, res in zip(case["reads"], o["reads"]):
-                m = driver.ask({"op": "sem", "hasSem": has_sem, "cached1": rd["order"] == "before", "cached2": rd["order"] != "uncached"})
+                m = driver.ask({"op": "sem", "hasSem": has_sem, "cached1": rd["order"] == "before", "cached2": rd["order"] in ("before", "during")})
                 model.append(m)
                 if [m["acquires"], m["releases"]] != [res["acquires"], res["releases"]]:
                     fails.append(F("A", "semaphore use of a %s read: implementation acquire/release %s, model %s"
                                    % (rd["order"], [res["acquires"], res["releases"]], m), "A:openml-semaphore"))
                     break
-        nontrivial = any(rd["order"] == "during" for rd in case["reads"])
+                if rd["order"] == "network" and res["outcome"] == "ok" and res["stagger"] != (res["requests"] if has_sem else 0):
+                    fails.append(F("A", "staggering in _http_request: %d requests, %d sleeps, semaphore installed: %s" % (res["requests"], res["stagger"], has_sem),
+                                   "A:openml-stagger"))
+                    break
+            if not fails:
+                mr = driver.ask({"op": "semrun", "permits": o["permits0"],
+                                 "reads": [[has_sem, rd["order"] == "before", rd["order"] in ("before", "during")] for rd in case["reads"]]})
+                if mr["permits"] != o["reads"][-1]["permits_after"]:
+                    fails.append(F("A", "free permits after the sequence: implementation %s, model %s" % (o["reads"][-1]["permits_after"], mr), "A:openml-semaphore"))
+        nontrivial = any(rd["order"] in ("during", "network") for rd in case["reads"])
         return {"fails": fails, "nontrivial": nontrivial, "tags": tags, "impl": o, "model": model}
 
     def eval_depth(self, case, driver):
@@ -754,7 +802,7 @@ class C19(Property):
         if case.get("kind", "sched") != "sched":
             if case.get("kind") == "disk" and len(case["lines"]) > 1:
                 yield dict(case, lines=case["lines"][:-1])
-            if case.get("kind") == "openml" and len(case["reads"]) > 1:
+            if case.get("kind") == "openml" and len(case.get("reads", [])) > 1:
                 for k in range(len(case["reads"])):
                     yield dict(case, reads=case["reads"][:k] + case["reads"][k + 1:])
             if case.get("kind") == "depth" and case["n"] > 1:
@@ -781,7 +829,9 @@ class C19(Property):
     def snippet(self, case):
         if case is None:
             return ""
-        fn = {"sched": "run_sched", "disk": "run_disk", "mp": "run_mp", "depth": "run_depth", "openml": "run_openml", "index": "run_index"}[case.get("kind", "sched")]
+        if case.get("kind") == "openml" and case.get("threads"):
+            case = dict(case, kind="openml_threads")
+        fn = {"openml_threads": "run_openml_threads", "sched": "run_sched", "disk": "run_disk", "mp": "run_mp", "depth": "run_depth", "openml": "run_openml", "index": "run_index"}[case.get("kind", "sched")]
         return ("# runs the case on the real coba cachers (threads under the baton scheduler of /verif/harness/props/c19_sched.py)\n"
                 "import sys, json; sys.path[:0]=[%r, '/verif/harness']\nfrom props.c19_run import %s\n"
                 "case = json.loads(%r)\nr = %s(case)\nprint(json.dumps({k: v for k, v in r.items() if k != 'events'}, indent=1, default=str))\n"
